@@ -330,7 +330,7 @@ def run_fallback(tier, seed, sc, rep, pid="C15"):
     MonPump; adds to the caller's report."""
     exe, _proj = build("plain")
     exe = shutil.copy2(exe, sc.path("bin15", "ivh_pump"))
-    scripts = [x for x in random_scripts(seed + 1009, 1600 if tier == "quick" else 20000) if x.split("\n", 1)[0].split()[2] == "mode=rw"]
+    scripts = [x for x in random_scripts(seed + 1009, 1600 if tier == "quick" else 8000) if x.split("\n", 1)[0].split()[2] == "mode=rw"]
     idx = {script_id(x): x for x in scripts}
     tfs = run_scripts(exe, scripts, sc, "fb")
     verdicts, nev = validate(tfs, sc)
@@ -376,7 +376,7 @@ def run(pid, tier, seed, replay=None):
             bfs, sim, complete = gen_from_spec(tier, seed, sc)
             scripts = scripts_from_spec(bfs, sim, tier)
             ngen = len(scripts)
-            scripts += random_scripts(seed, 3000 if tier == "quick" else 60000)
+            scripts += random_scripts(seed, 3000 if tier == "quick" else 30000)
             scripts += many_scripts(tier)
             exhaustive = complete
         idx = {script_id(s): s for s in scripts}
